@@ -96,6 +96,9 @@ func excluded(cmd kit.Cmd) bool {
 	case "spop", "srandmember", "hrandfield", "blpop", "brpop", "ttl", "expire", "persist", "setex", "subscribe", "publish", "select", "rconf", "member":
 		return true
 	case "set":
+		if len(cmd) < 4 {
+			return false
+		}
 		for _, a := range cmd[3:] {
 			switch strings.ToLower(string(a)) {
 			case "ex", "px", "exat", "keepttl":
